@@ -13,7 +13,7 @@
    The response the pledge returns must be one that a coordinator sent to it (T). *)
 From stdpp Require Import gmap.
 From Coq Require Import NArith.
-From Synnax Require Import Common.Base Aspen.Pledge.
+From Synnax Require Import Common.Base Aspen.Pledge Aspen.PledgeCluster.
 Local Open Scope N_scope.
 
 Definition case_t : Type := (list member_cfg * list (N * nat)) * list ev.
@@ -112,8 +112,49 @@ Definition accepts (c : case_t) : bool :=
   match exec (lookup_pmax c.1.2) (init c.1.1) c.2 with Some _ => true | None => false end.
 Definition mismatch (c : case_t) : bool := negb (accepts c).
 
-Definition mismatches (cs : list case_t) : list nat := find_idx mismatch cs.
-Definition violations (cs : list case_t) : list nat := find_idx violates cs.
+(* ---- cluster.Open-level scripts (Aspen/PledgeCluster.v) ---- *)
+Definition ccase_t : Type := cscript.
+
+(* the bootstrapper's cluster key is the first one seen: canonical number 1 *)
+Definition cmismatch (c : ccase_t) : bool := negb (bool_decide (crun 1 ∅ c = map snd c)).
+
+Definition k_join_ck : N := 12.     (* a joiner holds a cluster key other than the bootstrapper's *)
+Definition k_node_dup : N := 13.    (* two nodes hold the same node key *)
+
+Record cmst := CMst { cm_boot : option N; cm_keys : list (N * N); cm_kinds : list N }.
+
+Definition other_has (keys : list (N * N)) (i key : N) : bool :=
+  existsb (fun x => negb (bool_decide (x.1 = i)) && bool_decide (x.2 = key)) keys.
+Definition set_key (keys : list (N * N)) (i key : N) : list (N * N) :=
+  filter (fun x => x.1 <> i) keys ++ [(i, key)].
+
+Definition cmon_step (m : cmst) (x : cop * cobs) : cmst :=
+  let '(o, (ok, key, ck)) := x in
+  if negb ok then m else
+  let dup := if other_has (cm_keys m) match o with CStart i | CJoin i _ | CClose i | CReopen i => i end key
+             then [k_node_dup] else [] in
+  match o with
+  | CStart i => CMst (match cm_boot m with None => Some ck | b => b end) (set_key (cm_keys m) i key) (cm_kinds m ++ dup)
+  | CJoin i _ =>
+      CMst (cm_boot m) (set_key (cm_keys m) i key)
+           (cm_kinds m ++ (if bool_decide (cm_boot m = Some ck) && negb (bool_decide (ck = 0)) then [] else [k_join_ck]) ++ dup)
+  | CReopen i => CMst (cm_boot m) (set_key (cm_keys m) i key) (cm_kinds m ++ dup)
+  | CClose _ => m
+  end.
+
+Definition cviol_kinds (c : ccase_t) : list N :=
+  remove_dups (cm_kinds (foldl cmon_step (CMst None [] []) c)).
+Definition cviolates (c : ccase_t) : bool := negb (bool_decide (cviol_kinds c = [])).
+
+(* ---- what the runner evaluates: a case of either level ---- *)
+Inductive acase_t := PCase (c : case_t) | CCase (c : ccase_t).
+Definition amismatch (c : acase_t) : bool := match c with PCase c => mismatch c | CCase c => cmismatch c end.
+Definition aviolates (c : acase_t) : bool := match c with PCase c => violates c | CCase c => cviolates c end.
+Definition mismatches (cs : list acase_t) : list nat := find_idx amismatch cs.
+Definition violations (cs : list acase_t) : list nat := find_idx aviolates cs.
+(* the kinds a pledge-level case is rejected for; 99 in front when the model does not accept the log *)
+Definition judged_kinds (c : case_t) : list N := (if accepts c then [] else [99]) ++ viol_kinds c.
+Definition cmodel_dump (c : ccase_t) := (crun 1 ∅ c, cviol_kinds c).
 
 (* for replays: where the model stops accepting, what it knew there, and the admitted keys *)
 Definition dump_jur (s : state) := map (fun x => (x.1, j_appr x.2, j_granted x.2)) (map_to_list (s_jur s)).
